@@ -359,11 +359,19 @@ func main() {
 	defer wo.Flush()
 	defer wi.Flush()
 	stats := map[string]int{}
+	var prevBA *leaves.BurndownAnalysis
 	for it := 0; it < count; it++ {
 		rng := rand.New(rand.NewSource(seed + int64(it)))
 		blobCache = map[plumbing.Hash]*items.CachedBlob{}
 		pn := rng.Intn(4)
 		ba := &leaves.BurndownAnalysis{Granularity: 30, Sampling: 30, PeopleNumber: pn, TickSize: 24 * time.Hour}
+		if prevBA != nil && rng.Intn(3) == 0 {
+			// Initialize on an object that has already analysed a history starts from scratch (the model always does)
+			ba = prevBA
+			ba.PeopleNumber = pn
+			stats["reinitialized-object"]++
+		}
+		prevBA = ba
 		ba.Initialize(nil)
 		g := &gen{rng: rng, wo: wo, wi: wi, pn: pn, brs: map[int]*leaves.BurndownAnalysis{1: ba}, lens: map[int]map[int]int{1: {}}, stats: stats}
 		fmt.Fprintf(wo, "init %d\n", pn)
